@@ -45,7 +45,7 @@ def cases(seed, tier):
                     'bw': [None, 'scott', 'silverman', 0.05, 0.3, 1.0][i % 6],
                     'weighted': bool(i % 3 == 1), 'sample_size': [None, None, 10, 200][i % 4] if i % 3 != 1 else None,
                     'n': int(rng.choice([5, 50, 300, 2000]))})
-    for i in range(16 if tier == 'quick' else 200):
+    for i in range(48 if tier == 'quick' else 240):
         out.append({'mode': 'support', 'family': ['beta', 'uniform', 'truncnorm', 'truncnorm'][i % 4],
                     'seed': int(rng.integers(1 << 31)), 'n': int(rng.choice([200, 1000]))})
     return out
